@@ -188,9 +188,9 @@ Proof.
   { unfold aligned in *. rewrite N.eqb_eq in *. apply mod_trans with (m := al); auto.
     apply wf_flex_inv in Hw. destruct Hw as [_ Hl]. apply wf_int_P16 in Hl. apply P16_pos; tauto. }
   (* one step of the walk: a zero slot ends the chain *)
-  assert (Hfold : forall A (item : A -> N -> N -> bytes -> res A) acc fuel,
-             flex_fold l os item (S fuel) acc a (take n buf') 0 = Ok (acc, EndZero 0)).
-  { intros A item acc fuel. cbn [flex_fold]. rewrite Haligned. cbn [negb].
+  assert (Hfold : forall A (item : A -> N -> N -> bytes -> res A) acc fuel a0, aligned a0 (ialign l) = true ->
+             flex_fold l os al item (S fuel) acc a0 (take n buf') 0 = Ok (acc, EndZero 0)).
+  { intros A item acc fuel a0 Ha0. cbn [flex_fold]. rewrite Ha0. cbn [negb].
     rewrite Hdata. rewrite blen_app, He.
     destruct (N.ltb_spec (isize l + blen (take (n - isize l) (drop (isize l) buf))) (isize l)); [lia|].
     unfold enc. rewrite read_int_written by apply pow256_pos. cbn [bind].
@@ -199,7 +199,9 @@ Proof.
   - unfold validate, check_align_min. fold al. rewrite Ha. cbn [negb min_size].
     change (umax (isize l) (align t)) with os. rewrite Hlen.
     destruct (N.ltb_spec (blen buf) os); [lia|]. cbn [bind validate_u]. fold al. fold n. fold os.
-    unfold flex_fuel. Show. rewrite Hfold. reflexivity.
-  - cbn [view]. fold al. fold n. fold os. unfold flex_fuel. rewrite Hfold. reflexivity.
-  - cbn [size_m]. fold al. fold n. fold os. unfold flex_fuel. rewrite Hfold. reflexivity.
+    unfold flex_fuel. rewrite Hfold by exact Haligned. reflexivity.
+  - cbn [view]. fold al. fold n. fold os. unfold flex_fuel.
+rewrite Hfold by reflexivity. reflexivity.
+  - cbn [size_m]. fold al. fold n. fold os. unfold flex_fuel.
+rewrite Hfold by reflexivity. reflexivity.
 Qed.
